@@ -63,6 +63,9 @@ type env struct {
 	outcome   map[string]map[string]int // class -> outcome -> n   (evidence matrix)
 	outcomeMu sync.Mutex
 	base      *fingerprint
+	dirty     int // batches whose escaped requests changed the state
+	restarts  int
+	capped    bool
 }
 
 func (e *env) tag() string { return e.fl.Name }
@@ -316,13 +319,9 @@ func (e *env) fixture() error {
 				return fmt.Errorf("logstream %s/%s: %d %s", rp, stream1, r.Status, r.Body)
 			}
 		}
-		for _, rp := range []string{repo1, "sacrepo"} {
-			rq := specFor(Route{Method: "POST", Pattern: "/repo/{repository}/logstreams/{logStream}/records"}, target{Repo: rp, LS: stream1, PromMilli: 1700000000000})
-			r := e.send(e.asAdmin(rq))
-			if r.Status/100 != 2 {
-				return fmt.Errorf("seed log record to %s/%s: %d %s", rp, stream1, r.Status, r.Body)
-			}
-		}
+		// No log records are seeded: with pending records in a stream's mem-table, deleting
+		// that log stream (which the sweep's findings do) makes the server panic at its next
+		// flush ("wal remove files failed"), and a dead server judges nothing.
 		for _, q := range []string{"GRANT READ ON " + repo1 + " TO " + roUser, "GRANT WRITE ON " + repo1 + " TO " + woUser,
 			"GRANT ALL ON " + repo1 + " TO " + victimUser} {
 			if err := run(q); err != nil {
